@@ -1,6 +1,6 @@
 (** C09 — the cached flag never changes any result. *)
 From Coq Require Import List ZArith Bool.
-From MX Require Import Exec.Model Exec.Spec Exec.Sim Exec.Cover Exec.Quiet Exec.Edits3 Exec.Results Exec.Top.
+From MX Require Import Exec.Model Exec.Spec Exec.Sim Exec.Cover Exec.Quiet Exec.Edits3 Exec.Edits4 Exec.Edits6 Exec.Results Exec.Top.
 Import ListNotations.
 
 (** PARTIAL.  Proved: (1) switching the flag of any cells at any point of a
@@ -11,7 +11,8 @@ Import ListNotations.
     caller); (2) uncached cells hold no values.
     Not proved: that the specification value itself is independent of the
     flags (it is, except for the None check that only cached cells perform:
-    recorded finding D33); reference reads (see C02). *)
+    recorded finding D33).  Reference changes, read by name or by attribute
+    path inside uncached cells, are covered (third theorem). *)
 Theorem C09_flag_change_keeps_invariant : forall fuel st c b x st',
   step fuel st (OpSetCached c b) = (x, st') -> x <> OFuel -> Quiet st -> s_reent st = false ->
   s_reent st' = true \/ Quiet st'.
@@ -24,12 +25,12 @@ Proof. intros st i Q. exact (proj2 (proj2 (proj2 (proj2 (graph_matches_cache st 
 Print Assumptions C09_uncached_hold_nothing.
 
 Theorem C09_histories_with_flag_changes : forall fuel cells refs maxd ops xs st,
-  defs_ok cells -> ops_ok ops ->
+  defs_ok cells -> refn_ok (init cells refs maxd) -> ops_ok2 fuel (init cells refs maxd) ops ->
   run fuel (init cells refs maxd) ops = (xs, st) -> no_fuel_out xs -> s_reent st = false ->
   Quiet st /\
   (forall i v, lookup_data (s_data st) i = Some v ->
      mem_item i (s_inputs st) = true \/ exists f, spec_eval f st i = Val v) /\
   (forall i r st', eval_top fuel st i = (r, st') -> r <> OutOfFuel ->
      agrees r (fun g => spec_eval g st i)).
-Proof. exact history_correct. Qed.
+Proof. exact history_correct2. Qed.
 Print Assumptions C09_histories_with_flag_changes.
